@@ -233,16 +233,13 @@ func gen(r *rand.Rand, thorough bool, caseNo int) []string {
 		}
 		return anyMiner()
 	}
-	nRounds := 30 + r.Intn(50)
+	nRounds := 35 + r.Intn(45)
 	if thorough {
 		nRounds = 60 + r.Intn(200)
 	}
 	probes := 0
-	afterVC := -1 // rounds still to run once a view change has come into force (the machine then only restarts)
-	for rd := 0; rd < nRounds && afterVC != 0; rd++ {
-		if afterVC > 0 {
-			afterVC--
-		}
+	finalized := "" // number/start of the magic block the chain has as its latest finalized one
+	for rd := 0; rd < nRounds; rd++ {
 		st, err := minersc.VerifC38Read(wd.w.SCtx())
 		if err != nil {
 			break
@@ -314,7 +311,14 @@ func gen(r *rand.Rand, thorough bool, caseNo int) []string {
 					emit(fmt.Sprintf("keep %s s%d", anyClient(), i))
 				}
 			}
-			for _, s := range prevS {
+			curPrevS := prevS
+			if st.HasPrevMB {
+				curPrevS = nil
+				for _, id := range st.PrevSharders {
+					curPrevS = append(curPrevS, labelOf[id])
+				}
+			}
+			for _, s := range curPrevS {
 				if !lazy && r.Intn(3) != 0 {
 					emit(fmt.Sprintf("keep %s %s", anyClient(), s))
 				}
@@ -401,13 +405,15 @@ func gen(r *rand.Rand, thorough bool, caseNo int) []string {
 			out := emit("pay")
 			_ = out
 		}
-		// finalization of a magic block that just came into force
-		if st2, err := minersc.VerifC38Read(wd.w.SCtx()); err == nil && st2.HasMB && st2.HasPrevMB && st2.ViewChange == st2.MBStart && st2.MBNumber != wd.lfmbNo && r.Intn(3) != 0 {
-			s2 := r.Int63()
-			emit(fmt.Sprintf("finalize seed=%d perms=%s", s2, permTable(s2, nMinerKeys)))
-			wd.lfmbNo = st2.MBNumber
-			if afterVC < 0 {
-				afterVC = 4 + r.Intn(8)
+		// finalization of the block that carried a magic block into force: usually at once, sometimes a few rounds
+		// later, but always before the next DKG reaches its final reductions (they read the chain's latest finalized set)
+		if st2, err := minersc.VerifC38Read(wd.w.SCtx()); err == nil && st2.HasMB && st2.HasPrevMB &&
+			st2.PrevMBNumber == st2.MBNumber && st2.PrevMBStart == st2.MBStart {
+			key := fmt.Sprintf("%d/%d", st2.MBNumber, st2.MBStart)
+			if key != finalized && (r.Intn(3) != 0 || (st2.HasPhase && st2.Phase >= 2)) {
+				s2 := r.Int63()
+				emit(fmt.Sprintf("finalize seed=%d perms=%s", s2, permTable(s2, nMinerKeys)))
+				finalized = key
 			}
 		}
 	}
@@ -428,6 +434,8 @@ type snap struct {
 	mbNumber, mbStart          int64
 	mbM, mbS, mbVM, mbVS       map[string]bool
 	vc                         int64
+	hasPrev                    bool
+	prevM, prevS               map[string]bool
 }
 
 func setOf(s string) map[string]bool {
@@ -473,6 +481,11 @@ func parseSnap(out string) (sn snap, ok bool) {
 	}
 	f = strings.Fields(parts[8])
 	sn.vc, _ = strconv.ParseInt(f[1], 10, 64)
+	f = strings.Fields(parts[9])
+	if len(f) == 3 {
+		sn.hasPrev = true
+		sn.prevM, sn.prevS = setOf(strings.TrimPrefix(f[1], "m=")), setOf(strings.TrimPrefix(f[2], "s="))
+	}
 	return sn, true
 }
 
@@ -494,7 +507,7 @@ func prio(sig string) int {
 }
 
 var stat struct {
-	pays, advances, restarts, cycles, mpkOK, sosOK, waitOK, rejected, mbs, vcDone, vcCancelled int64
+	pays, advances, restarts, cycles, mpkOK, sosOK, waitOK, rejected, mbs, vcDone, vcCancelled, multiVC int64
 	phaseSeen                                                                              [5]int64
 }
 
@@ -533,6 +546,7 @@ func oracle(ops, outs []string) *corr.Violation {
 	mpkBy, sosBy, waitBy := map[string]int{}, map[string]int{}, map[string]int{}
 	nMpk, nSos := 0, 0 // accepted since the last snapshot
 	lastMB := int64(-1)
+	vcInCase := 0
 	for i := 1; i < len(ops); i++ {
 		ws := strings.Fields(ops[i])
 		out := outs[i]
@@ -600,10 +614,6 @@ func oracle(ops, outs []string) *corr.Violation {
 				note(i, "wait-accepted-from-non-member", fmt.Sprintf("%s is not in the DKG miners list", ws[1]))
 			}
 			waitBy[ws[1]]++
-		case "finalize":
-			if out == "ok" && cur.hasMB {
-				prevM, prevS = cur.mbVM, cur.mbVS // what HasNode of the new latest finalized magic block sees
-			}
 		case "pay":
 			stat.pays++
 			if !strings.HasPrefix(out, "ok | ") {
@@ -673,6 +683,19 @@ func oracle(ops, outs []string) *corr.Violation {
 			if old.vc != sn.vc && sn.hasMB && sn.vc != sn.mbStart {
 				stat.vcCancelled++
 			}
+			if sn.hasMB && sn.vc == sn.cur && sn.mbStart == sn.cur {
+				// the stored magic block came into force in this block: from now on it is the previous set
+				vcInCase++
+				stat.vcDone++
+				if vcInCase == 2 {
+					stat.multiVC++
+				}
+				if sn.hasPrev {
+					prevM, prevS = sn.prevM, sn.prevS
+				} else {
+					note(i, "view-change-without-previous-magic-block", "the magic block came into force but gn.PrevMagicBlock is not set")
+				}
+			}
 			cur = sn
 		}
 	}
@@ -723,12 +746,15 @@ func main() {
 			if th {
 				return 300
 			}
-			return 16
+			return 10
 		},
 		Fixed: [][]string{
-			// a complete view change, then the next DKG attempts (stuck at Start: gn.PrevMagicBlock has no visible members)
-			append(append([]string{fixedInit("")}, toPublish...), "sos m0 3 valid", "sos m1 3 valid", "sos m2 3 valid", "sos m3 3 valid", "pay", "pay",
-				"wait m0", "wait m1", "wait m2", "wait m3", "wait m0", "pay", "pay", "pay", fin, "pay", "pay", "pay", "pay", "pay"),
+			// two consecutive complete view changes (magic blocks 2 and 3 come into force), then the third DKG starts
+			append(append(append(append([]string{fixedInit("")}, toPublish...), "sos m0 3 valid", "sos m1 3 valid", "sos m2 3 valid", "sos m3 3 valid", "pay", "pay", "pay",
+				"wait m0", "wait m1", "wait m2", "wait m3", "wait m0", "pay", "pay", "pay", fin,
+				"pay", "pay", "mpk m0 3", "mpk m1 3", "mpk m2 3", "mpk m4 3", "keep m0 s0", "keep m0 s1", "pay", "pay", "pay", "pay", "pay",
+				"sos m0 3 valid", "sos m1 3 valid", "sos m2 3 valid", "sos m4 3 valid", "pay", "pay", "pay",
+				"wait m0", "wait m1", "wait m2", "wait m4", "pay", "pay", "pay"), fmt.Sprintf("finalize seed=11 perms=%s", permTable(11, nMinerKeys))), "pay", "pay", "pay"),
 			// witness: one miner contributes three MPKs (own id, another member's id, a stranger's id)
 			{fixedInit(""), "pay", "pay", "pay", "mpk m3 3 as=m4", "mpk m3 3 as=x1", "mpk m3 3", "mpk m3 3", "pay"},
 			// witness: a stranger replays a contributor's shares in Publish
@@ -754,7 +780,7 @@ func main() {
 			child := probe(append([]string{fixedInit("")}, toPublish...), "sos x1 3 valid")
 			return map[string]interface{}{"sos_without_mpk_through_UpdateState_in_child_process": child,"payFees": stat.pays, "phase_advances": stat.advances, "dkg_restarts": stat.restarts, "completed_cycles": stat.cycles,
 				"mpk_accepted": stat.mpkOK, "sos_accepted": stat.sosOK, "wait_accepted": stat.waitOK, "dkg_txns_rejected": stat.rejected,
-				"magic_blocks_produced": stat.mbs, "view_changes_cancelled": stat.vcCancelled, "pay_snapshots_by_phase": stat.phaseSeen,
+				"magic_blocks_produced": stat.mbs, "view_changes_cancelled": stat.vcCancelled, "view_changes_in_force": stat.vcDone, "cases_with_2_or_more_consecutive_view_changes": stat.multiVC, "pay_snapshots_by_phase": stat.phaseSeen,
 				"moveFunctions": mv, "phaseFuncs": ph}
 		},
 	})
